@@ -106,7 +106,7 @@ FPattern == { [R0 EXCEPT !.pat = p, !.mcase = m] : p \in PatU, m \in {"none", "o
 FFlags == { [R0 EXCEPT !.white = w, !.important = i, !.misc = m] : w \in BOOLEAN, i \in BOOLEAN, m \in {{}, {"popup"}} }
           \ { r \in { [R0 EXCEPT !.white = TRUE, !.important = i, !.misc = {"popup"}] : i \in BOOLEAN } : TRUE }
 FDoc   == { [R0 EXCEPT !.white = TRUE, !.docOpts = d, !.permTypes = p] :
-              d \in {{"elemhide"}, {"urlblock", "genericblock"}, DocOpts \ {"generichide", "genericblock"}},
+              d \in { {o} : o \in DocOpts } \cup {{"urlblock", "genericblock"}, DocOpts \ {"generichide", "genericblock"}},
               p \in {{}, {"script"}} }
 
 Families == [third |-> FThird, types |-> FTypes, domain |-> FDomain, deny |-> FDeny, dns |-> FDns,
